@@ -2,6 +2,7 @@
 
 __all__ = ['CSSSerializer', 'Preferences']
 
+import re
 import codecs
 
 import cssutils
@@ -185,6 +186,9 @@ class Preferences:
         self.validOnly = False
 
 
+_endswithescape = re.compile(r'\\[0-9a-fA-F]{1,6} \Z').search
+
+
 class Out:
     """A simple class which makes appended items available as a combined string"""
 
@@ -246,6 +250,9 @@ class Out:
                 val = helper.uri(val)
             elif 'HASH' == type_:
                 val = self.ser._hash(val)
+            elif 'IDENT' == type_:
+                # characters which came as unicode escapes are escaped again
+                val = helper.ident(val)
             elif hasattr(val, 'cssText'):
                 val = val.cssText
             elif hasattr(val, 'mediaText'):
@@ -265,7 +272,8 @@ class Out:
             if indent or (val == '}' and self.ser.prefs.indentClosingBrace):
                 self.out.append(self.ser._indentblock(val, self.ser._level + 1))
             else:
-                if val.endswith(' '):
+                if val.endswith(' ') and not _endswithescape(val):
+                    # (the blank which ends an escape is part of the name)
                     self._remove_last_if_S()
                 self.out.append(val)
 
